@@ -178,6 +178,14 @@ func (pl *paceLoop) run(tr *Tracer, r *rand.Rand, n int, stallMode int) (consult
 					p = true
 				}
 			}()
+			// the other method of a pacer must not panic either, whatever the parameters (its value is checked below, where
+			// the statement says something about it)
+			_ = pl.pacer.Rate(time.Duration(t))
+			if i == 0 {
+				for _, at := range []int64{0, 1, 1e9, 3600e9, math.MaxInt64} {
+					_ = pl.pacer.Rate(time.Duration(at))
+				}
+			}
 			wait, stop = pl.pacer.Pace(time.Duration(t), hits)
 			return false
 		}()
